@@ -163,6 +163,45 @@ class Executor:
         line, self.buf = self.buf.split(b'\n', 1)
         return line.decode('utf-8', 'replace')
 
+    def run_par(self, lines, nthreads, timeout=LINE_TIMEOUT_S * 3):
+        """Execute the program on `nthreads` threads at once inside the executor (own register file each); one answer per line:
+        the common answer, or 'par-mismatch …' when the threads disagree."""
+        if self.p is None or self.p.poll() is not None:
+            self.start()
+        data = ('\n'.join(['!reset', '!par %d' % nthreads] + list(lines) + ['!endpar']) + '\n').encode()
+        import threading
+        th = threading.Thread(target=self._write_all, args=(data,), daemon=True)
+        th.start()
+        answers = []
+        for i in range(len(lines) + 1):
+            ans = self._readline(timeout)
+            if ans is None:
+                self.close()
+                answers.append('hang?')
+                answers.extend(['skipped'] * (len(lines) - i))
+                return answers[1:]
+            if ans == '':
+                rc = self.p.wait()
+                err = b''
+                try:
+                    err = self.p.stderr.read() or b''
+                except Exception:
+                    pass
+                self.close()
+                answers.append('died rc=%s %s' % (rc, err.decode('utf-8', 'replace').strip().replace('\n', ' | ')[:600]))
+                answers.extend(['skipped'] * (len(lines) - i))
+                return answers[1:]
+            answers.append(ans)
+        th.join(timeout=5)
+        return answers[1:]
+
+    def _write_all(self, data):
+        try:
+            self.p.stdin.write(data)
+            self.p.stdin.flush()
+        except Exception:
+            pass
+
     def run(self, lines, timeout=LINE_TIMEOUT_S, solo=True):
         """Execute program lines from a fresh register file. Returns one answer string per line.
         Special answers: 'hang' (reproduced when run alone), 'hang?' (not reproduced), 'died <info>', 'skipped'."""
@@ -234,6 +273,7 @@ class Ctx:
         self.seed = seed
         self.exe_paths = exes          # name -> path
         self.hooks = exes.get('_hooks', 'lines')
+        self.mode = exes.get('_mode')      # None | 'repeat' | 'par': metamorphic perturbation passes (see run())
         self._ex = {}
         self.evals = 0
         self.classes = collections.Counter()
@@ -266,7 +306,30 @@ class Ctx:
             if exe == 'tsan':
                 env = {'TSAN_OPTIONS': 'halt_on_error=1:exitcode=66'}
             self._ex[exe] = Executor(self.exe_paths[exe], env)
-        ans = self._ex[exe].run(lines)
+        if self.mode == 'repeat':
+            # every call is made twice in a row (the first time into no register): a pure function must answer the same
+            doubled = []
+            for l in lines:
+                dst, _, rest = l.partition(' ')
+                doubled.append('_ ' + rest)
+                doubled.append(l)
+            both = self._ex[exe].run(doubled)
+            ans = both[1::2]
+            for l, a1, a2 in zip(lines, both[0::2], both[1::2]):
+                if a1 != a2 and a1 not in ('skipped',) and a2 not in ('skipped',):
+                    self.fail('repeat-mismatch|' + l.split()[1], 'the same call made twice in a row answers differently: first %r, then %r (%s)' % (a1[:120], a2[:120], l[:200]),
+                              line=l, first=a1, second=a2)
+                    break
+            self.classes['perturb/repeat'] += len(lines)
+        elif self.mode == 'par':
+            ans = self._ex[exe].run_par(lines, 8)
+            for l, a in zip(lines, ans):
+                if a.startswith('par-mismatch'):
+                    self.fail('parallel-mismatch|' + l.split()[1], 'the same call answers differently on concurrently running threads: %s (%s)' % (a[:400], l[:200]), line=l, observed=a)
+                    break
+            self.classes['perturb/parallel'] += len(lines)
+        else:
+            ans = self._ex[exe].run(lines)
         self.trace.append({'exe': exe, 'program': list(lines), 'answers': ans})
         if 'hang' in ans or 'hang?' in ans:
             self.hangs += 1
@@ -381,10 +444,10 @@ class Agg:
         self.notes.extend(res['notes'])
 
 
-def run_cases(pid, tier, seed, exes, cases, batch=None, jobs=None, progress=False):
-    """cases: list of specs. Returns Agg."""
+def run_cases(pid, tier, seed, exes, cases, batch=None, jobs=None, progress=False, indexed=None):
+    """cases: list of specs (or `indexed`: list of (index, spec) pairs keeping the indices of the main pass). Returns Agg."""
     agg = Agg()
-    indexed = list(enumerate(cases))
+    indexed = list(enumerate(cases)) if indexed is None else list(indexed)
     if not indexed:
         return agg
     jobs = jobs or NCPU
@@ -462,6 +525,8 @@ def main_check(pid, tier, seed, replay=None, jobs=None, verbose=False):
     if replay:
         rp = json.load(open(replay))
         cases = None
+        if rp.get('mode'):
+            exes['_mode'] = rp['mode']
         spec_list = [(rp['case'], rp['spec'])]
         _worker_init(pid, rp.get('tier', tier), rp.get('seed', seed), exes)
         _W['args'] = (pid, rp.get('tier', tier), rp.get('seed', seed), exes)
@@ -473,6 +538,27 @@ def main_check(pid, tier, seed, replay=None, jobs=None, verbose=False):
     else:
         cases = mod.cases(tier, seed)
         agg = run_cases(pid, tier, seed, exes, cases, batch=getattr(mod, 'BATCH', None), jobs=jobs, progress=verbose)
+
+    # metamorphic perturbation passes on a spread sample of the same cases: every call made twice in a row (hidden state such as a
+    # memo of the last query), and every program run on 8 threads at once (shared mutable state, races)
+    perturb = {}
+    if not replay and cases and not getattr(mod, 'NO_PERTURB', False):
+        nsel = getattr(mod, 'PERTURB', (24, 240))[0 if tier == 'quick' else 1]
+        stepp = max(1, len(cases) // nsel)
+        sel = [(i, cases[i]) for i in range(0, len(cases), stepp)][:nsel]
+        for mode in ('repeat', 'par'):
+            ex2 = dict(exes)
+            ex2['_mode'] = mode
+            a2 = run_cases(pid, tier, seed, ex2, None, batch=max(1, len(sel) // (NCPU * 2)), jobs=jobs if mode == 'repeat' else max(2, (jobs or NCPU) // 4), indexed=sel)
+            perturb[mode] = {'cases': len(sel), 'events': int(a2.evals), 'violations': len(a2.violations)}
+            for v in a2.violations:
+                v['mode'] = mode
+            agg.violations.extend(a2.violations)
+            agg.internal.extend(a2.internal)
+            agg.evals += a2.evals
+            for k in ('perturb/repeat', 'perturb/parallel'):
+                if a2.classes.get(k):
+                    agg.classes[k] += a2.classes[k]
 
     stage_reports = []
     if not replay and hasattr(mod, 'stages'):
@@ -515,8 +601,8 @@ def main_check(pid, tier, seed, replay=None, jobs=None, verbose=False):
             if v['case'] in seen or len(replay_paths) >= 10:
                 continue
             seen.add(v['case'])
-            path = os.path.join(rdir, '%s-%s-%s-%s.json' % (pid, tier, seed, v['case']))
-            json.dump({'property': pid, 'tier': tier, 'seed': seed, 'case': v['case'], 'spec': v['spec'], 'sig': v['sig'],
+            path = os.path.join(rdir, '%s-%s-%s-%s%s.json' % (pid, tier, seed, v['case'], ('-' + v['mode']) if v.get('mode') else ''))
+            json.dump({'property': pid, 'tier': tier, 'seed': seed, 'case': v['case'], 'spec': v['spec'], 'sig': v['sig'], 'mode': v.get('mode'),
                        'msg': v['msg'], 'detail': {k: v[k] for k in v if k not in ('trace',)}, 'trace': v.get('trace', []),
                        'repo': repo_state()}, open(path, 'w'), indent=1, default=repr)
             replay_paths.append((v, path))
@@ -541,6 +627,7 @@ def main_check(pid, tier, seed, replay=None, jobs=None, verbose=False):
         'executors': sorted(k for k in exes if not k.startswith('_')),
         'hooks_level': exes.get('_hooks'),
         'stages': stage_reports,
+        'perturbation_passes': perturb if not replay else {},
         'repo': repo_state(),
         'exhaustive': bool(getattr(mod, 'exhaustive', lambda tier: False)(tier)) if not replay else False,
         'known_findings_hit': list(known_hit),
